@@ -167,6 +167,9 @@ func genIface(r *rand.Rand, idx int, placement string, stream string) IfaceJ {
 				c = TyJ{K: "named", Pkg: pkgAlpha, PkgName: "alpha", Name: "I", UnderNillable: true}
 			case 2:
 				c = TyJ{K: "iface", Embeds: []TyJ{{K: "union", Terms: []TermJ{{Tilde: true, Type: basicT("int")}, {Tilde: false, Type: basicT("string")}}}}}
+			case 3:
+				// an inline constraint that mentions its own type parameter: `T interface{ Less(other T) bool }`
+				c = TyJ{K: "iface", Methods: []FieldJ{{Name: "Less", Type: TyJ{K: "func", Params: []FieldJ{{Name: "other", Type: TyJ{K: "typeparam", Name: names[i]}}}, Results: []FieldJ{{Type: basicT("bool")}}}}}}
 			}
 			it.TypeParams = append(it.TypeParams, TParamJ{Name: names[i], Constraint: c})
 			g.typeParam = append(g.typeParam, names[i])
@@ -344,6 +347,7 @@ const reemitProbe = `// Code generated by probe. DO NOT EDIT.
 package {{.PkgName}}
 
 import (
+	ordalpha "example.com/m/ext/alpha"
 {{- if .SrcPkgQualifier}}
 	origsrc "example.com/m/src"
 {{- end}}
@@ -351,6 +355,8 @@ import (
 	{{.ImportStatement}}
 {{- end}}
 )
+
+var _ ordalpha.Ord
 {{range $i := .Interfaces}}
 type Re{{$i.Name}}{{$i.TypeConstraint}} interface {
 {{- range $i.Methods}}
@@ -382,7 +388,7 @@ func (fwdRecv Fwd{{$i.Name}}{{$i.TypeInstantiation}}) {{.Declaration}} {
 	{{.ReturnStatement}} fwdRecv.inner.{{.Call}}
 }
 {{end}}
-var _ {{if $.SrcPkgQualifier}}origsrc.{{end}}{{$i.Name}}{{if $i.TypeParams}}[{{range $idx, $tp := $i.TypeParams}}{{if $idx}}, {{end}}{{if eq $tp.TypeString "comparable"}}int{{else if eq $tp.TypeString "any"}}string{{else if eq $tp.TypeString "alpha.I"}}alpha.I{{else}}int{{end}}{{end}}]{{end}} = Fwd{{$i.Name}}{{if $i.TypeParams}}[{{range $idx, $tp := $i.TypeParams}}{{if $idx}}, {{end}}{{if eq $tp.TypeString "comparable"}}int{{else if eq $tp.TypeString "any"}}string{{else if eq $tp.TypeString "alpha.I"}}alpha.I{{else}}int{{end}}{{end}}]{{end}}{}
+var _ {{if $.SrcPkgQualifier}}origsrc.{{end}}{{$i.Name}}{{if $i.TypeParams}}[{{range $idx, $tp := $i.TypeParams}}{{if $idx}}, {{end}}{{if eq $tp.TypeString "comparable"}}int{{else if eq $tp.TypeString "any"}}string{{else if eq $tp.TypeString "alpha.I"}}alpha.I{{else if hasPrefix "interface{Less" $tp.TypeString}}ordalpha.Ord{{else}}int{{end}}{{end}}]{{end}} = Fwd{{$i.Name}}{{if $i.TypeParams}}[{{range $idx, $tp := $i.TypeParams}}{{if $idx}}, {{end}}{{if eq $tp.TypeString "comparable"}}int{{else if eq $tp.TypeString "any"}}string{{else if eq $tp.TypeString "alpha.I"}}alpha.I{{else if hasPrefix "interface{Less" $tp.TypeString}}ordalpha.Ord{{else}}int{{end}}{{end}}]{{end}}{}
 {{end}}
 `
 
